@@ -18,6 +18,7 @@ import (
 	"io"
 	"os"
 	"os/exec"
+	"path/filepath"
 	"strconv"
 	"strings"
 	"sync"
@@ -103,7 +104,7 @@ func corpus() []Case {
 
 func genCases(o hx.Opts) []Case {
 	r := hx.NewRand(o.Seed)
-	nSeq, nRep, nFun := 1800, 90, 500
+	nSeq, nRep, nFun := 3000, 150, 800
 	if o.Thorough() {
 		nSeq, nRep, nFun = 15000, 700, 4000
 	}
@@ -195,9 +196,10 @@ func worker(cases []Case, idx []int, par int) {
 // ---- supervisor ----
 
 type sup struct {
-	o     hx.Opts
-	cases []Case
-	obs   map[int]Obs
+	o      hx.Opts
+	cases  []Case
+	obs    map[int]Obs
+	nspawn int
 }
 
 // spawn runs a worker on idx and returns the indices that were started but
@@ -207,8 +209,15 @@ func (s *sup) spawn(idx []int, par int) (inflight []int, crash string) {
 	for i, v := range idx {
 		strs[i] = strconv.Itoa(v)
 	}
+	// the index list goes through a file: an environment string is limited to 128 KiB
+	s.nspawn++
+	listFile := filepath.Join(s.o.Out, fmt.Sprintf("worker_%d.idx", s.nspawn))
+	if err := os.WriteFile(listFile, []byte(strings.Join(strs, ",")), 0o644); err != nil {
+		return idx, err.Error()
+	}
+	defer os.Remove(listFile)
 	cmd := exec.Command(os.Args[0], os.Args[1:]...)
-	cmd.Env = append(os.Environ(), "C09_WORKER="+strings.Join(strs, ","), "C09_PAR="+strconv.Itoa(par), "GOTRACEBACK=all")
+	cmd.Env = append(os.Environ(), "C09_WORKER="+listFile, "C09_PAR="+strconv.Itoa(par), "GOTRACEBACK=all")
 	var stderr bytes.Buffer
 	cmd.Stderr = &stderr
 	stdout, err := cmd.StdoutPipe()
@@ -216,7 +225,7 @@ func (s *sup) spawn(idx []int, par int) (inflight []int, crash string) {
 		return idx, err.Error()
 	}
 	if err := cmd.Start(); err != nil {
-		return idx, err.Error()
+		return nil, "cannot start worker: " + err.Error()
 	}
 	started := map[int]bool{}
 	sc := bufio.NewScanner(stdout)
@@ -348,7 +357,12 @@ func main() {
 	}
 	if ws := os.Getenv("C09_WORKER"); ws != "" {
 		var idx []int
-		for _, f := range strings.Split(ws, ",") {
+		lb, err := os.ReadFile(ws)
+		if err != nil {
+			fmt.Fprintln(os.Stderr, err)
+			os.Exit(2)
+		}
+		for _, f := range strings.Split(string(lb), ",") {
 			i, err := strconv.Atoi(f)
 			if err == nil && i >= 0 && i < len(cases) {
 				idx = append(idx, i)
